@@ -13,8 +13,10 @@ import (
 	"sync"
 	"testing"
 	"time"
+	"unicode/utf8"
 
 	"github.com/google/uuid"
+	"github.com/hprose/hprose-golang/v3/rpc/codec/jsonrpc"
 	"github.com/hprose/hprose-golang/v3/rpc/core"
 	"github.com/hprose/hprose-golang/v3/rpc/socket"
 	"github.com/hprose/hprose-golang/v3/rpc/udp"
@@ -259,12 +261,16 @@ type group struct {
 	missing int
 	withCtx bool
 	set     iox.Setting
+	json    bool // JSON-RPC codecs on both sides
 }
 
 func (g group) String() string {
 	s := fmt.Sprintf("%s/pool=%v/simple=%v/missing=%d/ctx=%v", g.kind, g.pool, g.simple, g.missing, g.withCtx)
 	if !g.set.IsDefault() {
 		s += "/" + g.set.String()
+	}
+	if g.json {
+		s += "/jsonrpc"
 	}
 	return s
 }
@@ -320,7 +326,7 @@ func TestCheck(t *testing.T) {
 				continue
 			}
 			for _, simple := range []bool{false, true} {
-				groups = append(groups, group{kind, pl, simple, i % 3, i%2 == 1, iox.Setting{}})
+				groups = append(groups, group{kind, pl, simple, i % 3, i%2 == 1, iox.Setting{}, false})
 				i++
 			}
 		}
@@ -329,8 +335,15 @@ func TestCheck(t *testing.T) {
 	srng := rand.New(rand.NewSource(int64(r.Seed) + 77))
 	if !peer.FastHTTPClient {
 		for i := 0; i < r.Pick(4, 12); i++ {
-			groups = append(groups, group{[]string{"mock", "tcp", "http"}[i%3], false, i%2 == 0, i % 3, false, iox.RandSetting(srng)})
+			groups = append(groups, group{[]string{"mock", "tcp", "http"}[i%3], false, i%2 == 0, i % 3, false, iox.RandSetting(srng), false})
 		}
+	}
+	// the JSON-RPC codecs, for the functions whose values JSON can represent
+	for i, kind := range []string{"mock", "http", "fasthttp", "tcp"} {
+		if peer.FastHTTPClient && kind != "http" && kind != "fasthttp" {
+			continue
+		}
+		groups = append(groups, group{kind, false, false, 1 + i%2, i%2 == 1, iox.Setting{}, true})
 	}
 	rounds := r.Pick(24, 150)
 	if light {
@@ -340,7 +353,13 @@ func TestCheck(t *testing.T) {
 		g := g
 		for fi := range funcs {
 			fi := fi
+			if g.json && !jsonFuncs[funcs[fi].name] {
+				continue
+			}
 			r.Case(fmt.Sprintf("call/%s/%s", g, funcs[fi].name), func(c *h.Case) { callCase(c, g, fi, rounds) })
+		}
+		if g.json {
+			continue
 		}
 		r.Case(fmt.Sprintf("missing/%s", g), func(c *h.Case) { missingCase(c, g) })
 		r.Case(fmt.Sprintf("concurrent/%s", g), func(c *h.Case) { concurrentCase(c, g) })
@@ -355,9 +374,15 @@ type env struct {
 	client *core.Client
 }
 
+// jsonFuncs are the functions whose parameters and results JSON can represent.
+var jsonFuncs = map[string]bool{"NoArgs": true, "NoArgsResult": true, "OneInt": true, "TwoResults": true, "ErrResult": true, "OnlyErr": true, "ErrAndResults": true, "Panics": true, "Variadic": true, "VariadicStr": true, "Bool": true, "Bytes": true, "ns_sub_echo": true, "你好": true, "Ünal_Ωmega": true}
+
 func start(c *h.Case, g group) *env {
 	svc := core.NewService()
 	svc.Codec = core.NewServiceCodec(core.WithSimple(g.simple), core.WithLongType(g.set.Long), core.WithRealType(g.set.Real), core.WithMapType(g.set.Map), core.WithStructType(g.set.Struct), core.WithListType(g.set.List))
+	if g.json {
+		svc.Codec = jsonrpc.NewServiceCodec(nil)
+	}
 	rec := &recorder{}
 	publish(svc, rec, g.missing)
 	if g.pool {
@@ -370,6 +395,9 @@ func start(c *h.Case, g group) *env {
 	}
 	client := srv.NewClient()
 	client.Codec = core.NewClientCodec(core.WithSimple(g.simple), core.WithLongType(g.set.Long), core.WithRealType(g.set.Real), core.WithMapType(g.set.Map), core.WithStructType(g.set.Struct), core.WithListType(g.set.List))
+	if g.json {
+		client.Codec = jsonrpc.NewClientCodec(nil)
+	}
 	client.Timeout = 20 * time.Second
 	return &env{svc, rec, srv, client}
 }
@@ -496,6 +524,15 @@ func callCase(c *h.Case, g group, fi int, rounds int) {
 	gg := &gen.Gen{Rng: rng}
 	for round := 0; round < rounds; round++ {
 		args := genArgs(gg, rng, pft, round)
+		if g.json {
+			// JSON strings are valid UTF-8
+			for tries := 0; tries < 50 && !jsonRepresentable(args); tries++ {
+				args = genArgs(gg, rng, pft, round+tries+1)
+			}
+			if !jsonRepresentable(args) {
+				continue
+			}
+		}
 		rep := map[string]interface{}{"group": g.String(), "function": fn.name, "spelled": spelled[fn.name], "args": describe(args)}
 		// expected
 		var exp []reflect.Value
@@ -506,7 +543,7 @@ func callCase(c *h.Case, g group, fi int, rounds int) {
 		} else {
 			exp, expErr, expPanic = callLocal(fn.f, args)
 		}
-		viaInvoke := round%3 == 2
+		viaInvoke := round%3 == 2 && !g.json // untyped JSON results are float64 / base64 strings by nature: typed proxies only
 		// values the codec options cannot hold in interface{} positions are outside the property's reach
 		holdable := true
 		for _, a := range args {
@@ -1009,4 +1046,24 @@ func nestedProxyCase(c *h.Case, g group) {
 	if got, err := proxy.Plain.Deep.Sum2(4, 5); err != nil || got != 9 {
 		c.Violation("nested-proxy-bound-to-another-function", fmt.Sprintf("Plain.Deep.Sum2 (name tag sum, the whole remote name) (4,5) = %d, %v; want 9", got, err), map[string]interface{}{"group": g.String()})
 	}
+}
+
+func jsonRepresentable(args []reflect.Value) bool {
+	for _, a := range args {
+		switch a.Kind() {
+		case reflect.String:
+			if !utf8.ValidString(a.String()) {
+				return false
+			}
+		case reflect.Slice:
+			if a.Type().Elem().Kind() == reflect.String {
+				for i := 0; i < a.Len(); i++ {
+					if !utf8.ValidString(a.Index(i).String()) {
+						return false
+					}
+				}
+			}
+		}
+	}
+	return true
 }
